@@ -120,6 +120,7 @@ fn scenario_from_json(v: &Value) -> Scenario {
         },
         plan: plan_from_json(&v["plan"]),
         bound: v["preemption_bound"].as_u64().unwrap() as u32,
+        callback_ms: v["progress_callback_ms"].as_u64(),
     }
 }
 
@@ -290,6 +291,7 @@ fn base(name: String, preset: Preset, chains: usize, cores: usize, script: Vec<O
         terminal,
         plan: FaultPlan::default(),
         bound,
+        callback_ms: None,
     }
 }
 
@@ -429,6 +431,48 @@ fn scenarios_c11(tier: Tier) -> Vec<Scenario> {
                         format!("DiagNuts/c{ch}k{co}/{}/{term:?}", script_name(&sc)),
                         Preset::DiagNuts, ch, co, sc.clone(), term, 1,
                     ));
+                }
+            }
+        }
+    }
+    // (round 13, after C11k) a progress callback makes the controller a timed waiter and brings its
+    // time-keeping (sampling time = wall time - pauses) into play: the clock advances while the
+    // user sleeps in a pause window, then matched and unmatched resumes follow
+    {
+        let scripts: Vec<Vec<Op>> = tier.pick(
+            vec![
+                vec![],
+                vec![Op::Pause, Op::Sleep, Op::Resume],
+                vec![Op::Pause, Op::Sleep, Op::Resume, Op::Resume],
+                vec![Op::Sleep, Op::Resume, Op::Resume],
+            ],
+            vec![
+                vec![],
+                vec![Op::Progress],
+                vec![Op::Pause, Op::Sleep, Op::Resume],
+                vec![Op::Pause, Op::Sleep, Op::Resume, Op::Resume],
+                vec![Op::Pause, Op::Sleep, Op::Resume, Op::Resume, Op::Resume],
+                vec![Op::Sleep, Op::Resume, Op::Resume],
+                vec![Op::Resume, Op::Resume],
+                vec![Op::Pause, Op::Sleep, Op::Pause, Op::Sleep, Op::Resume],
+                vec![Op::Pause, Op::Sleep, Op::Resume, Op::Pause, Op::Sleep, Op::Resume, Op::Resume],
+                vec![Op::Pause, Op::Sleep, Op::Flush, Op::Resume],
+            ],
+        );
+        for &(ch, co) in &[(1usize, 1usize), (2, 1), (2, 2)] {
+            for sc in &scripts {
+                // two chains running in parallel next to a controller that wakes up periodically:
+                // the sleeping scripts exceed the execution cap there (measured), kept to (2, 1)
+                if ch == 2 && co == 2 && sc.contains(&Op::Sleep) {
+                    continue;
+                }
+                for term in [Terminal::Abort, Terminal::WaitLong] {
+                    let mut s = base(
+                        format!("DiagNuts/c{ch}k{co}/callback/{}/{term:?}", script_name(sc)),
+                        Preset::DiagNuts, ch, co, sc.clone(), term, 1,
+                    );
+                    s.callback_ms = Some(10);
+                    out.push(s);
                 }
             }
         }
@@ -604,6 +648,36 @@ fn scenarios_c13(tier: Tier) -> Vec<Scenario> {
                 }
             }
         }
+        // (round 13, after C13k) the microcanonical chain has its own error path: a draw retries a
+        // failed step with halved step sizes (dynamic step size, the preset's default), so an
+        // unrecoverable error can arrive *inside* such a retry. Single unrecoverable faults and
+        // the pairs (recoverable at k, unrecoverable at k+1 / k+2) at every evaluation index.
+        if ch == co {
+            let proto = base(String::new(), Preset::DiagMclmc, ch, co, vec![], Terminal::WaitLong, bound);
+            let n_eval_m = count_evals(&proto, ch - 1);
+            let c = ch - 1;
+            for k in 0..n_eval_m {
+                let mut plans: Vec<(String, FaultPlan)> = vec![
+                    (format!("unrecoverable-chain{c}-eval{k}"), FaultPlan { dens: vec![(c, Some(k), DensKind::Unrecoverable)], ..Default::default() }),
+                    (format!("recoverable-chain{c}-eval{k}+unrecoverable-eval{}", k + 1), FaultPlan { dens: vec![(c, Some(k), DensKind::Recoverable), (c, Some(k + 1), DensKind::Unrecoverable)], ..Default::default() }),
+                ];
+                if tier == Tier::Thorough {
+                    plans.push((format!("recoverable-chain{c}-eval{k}+unrecoverable-eval{}", k + 2), FaultPlan { dens: vec![(c, Some(k), DensKind::Recoverable), (c, Some(k + 2), DensKind::Unrecoverable)], ..Default::default() }));
+                    plans.push((format!("recoverable-chain{c}-eval{k}+{}+unrecoverable-eval{}", k + 1, k + 2), FaultPlan { dens: vec![(c, Some(k), DensKind::Recoverable), (c, Some(k + 1), DensKind::Recoverable), (c, Some(k + 2), DensKind::Unrecoverable)], ..Default::default() }));
+                }
+                for (pname, plan) in plans {
+                    for term in tier.pick(vec![Terminal::WaitLong], vec![Terminal::WaitLong, Terminal::Abort]) {
+                        let sc: Vec<Op> = if term == Terminal::Abort { vec![Op::Progress] } else { vec![] };
+                        let mut s = base(
+                            format!("DiagMclmc/c{ch}k{co}/{pname}/{}/{term:?}", script_name(&sc)),
+                            Preset::DiagMclmc, ch, co, sc, term, bound,
+                        );
+                        s.plan = plan.clone();
+                        out.push(s);
+                    }
+                }
+            }
+        }
         // flush / inspect storage faults need the command in the script
         for c in 0..ch {
             for (op, sop) in [(Op::Flush, StorageOp::Flush), (Op::Inspect, StorageOp::Inspect)] {
@@ -719,7 +793,7 @@ fn main() {
     let mut report = Report::new(&id, tier, "model_checking", rule);
     report.assume("sequential consistency at scheduling points (the controller uses only mutexes and channels, no atomics)");
     report.assume("rayon's scope_fifo is replaced by a FIFO pool shim with its documented semantics; real time is abstracted: a timed wait times out only when no other task can run (or immediately for a zero timeout)");
-    report.assume("no progress callback (a second finite-timeout waiter) in E2 scenarios");
+    report.assume("a progress callback (a second finite-timeout waiter) only in the callback/ scenarios of C11");
     let max_exec: u64 = tier.pick(400_000, 6_000_000);
     report.bounds = json!({
         "scenarios": scenarios.len(),
